@@ -1,5 +1,6 @@
 import Driver.OpsCore
 import TakVerif.Impl.FPA
+import TakVerif.Spec.FPA
 namespace Driver
 open Tak Codec Tak.FPA
 
@@ -85,7 +86,13 @@ def handleFPA : Handler := fun st op args =>
           let acc := legal.filter (fun m => match legalMove var r.rule (viewOfPos p) m with
             | .ok (_, ok) => ok
             | .error _ => false)
-          some (st, out ++ " | " ++ toString legal.length ++ " | " ++ fmtMoves acc)
+          -- second opinion: the list-level generator and rule book used by the theorems (Spec.FPA.candsOf, Spec.step)
+          let sp := Spec.abs p
+          let sc := Spec.FPA.candsOf sp.size sp.toMove (fun i => sp.squares.getD i [])
+          let slegal := sc.filter (fun m => (Spec.step sp (Spec.decode m)).isSome)
+          let sacc := slegal.filter (fun m => Spec.FPA.accepted var r.rule (Spec.FPA.viewOf sp) m)
+          let flag := if slegal.length != legal.length || fmtMoves sacc != fmtMoves acc then " SPEC-GENERATOR-MISMATCH" else ""
+          some (st, out ++ " | " ++ toString legal.length ++ " | " ++ fmtMoves acc ++ flag)
         | [] => some (st, "bad-op")
       | none => some (st, "panic")
     | none => some (st, "bad-op")
